@@ -1,5 +1,6 @@
 import FsDb.Model.WPool
 import FsDb.Proofs.Pool
+import FsDb.Model.PoolWg
 /-!
 # C16 — The worker pool runs every accepted job exactly once and stops cleanly
 
@@ -351,5 +352,61 @@ example :
       .finish 1, .take, .flush, .finish 2, .take, .flush, .flush, .finish 3, .take, .flush, .flush,
       .finish 5, .take, .finish 4]
     s.executed = [4, 5, 3, 2, 1] ∧ s.running = true ∧ s.dropped = [] := by decide
+
+end FsDb.C16
+
+/-! ## the wait group between Send and Stop (the defect repaired by 775f13a) -/
+namespace FsDb.C16
+open FsDb.PoolWg
+
+/-- while a Stop is waiting the pool is not running, and nothing was misused so far -/
+def WgInv (s : PoolWg.St) : Prop := (s.waiting = true → s.running = false) ∧ s.misuse = false
+
+theorem wg_step (s s' : PoolWg.St) (a : PoolWg.Act) (h : WgInv s) (hs : PoolWg.step true s a = some s') : WgInv s' := by
+  obtain ⟨h1, h2⟩ := h
+  cases a <;> simp only [PoolWg.step] at hs
+  · split at hs
+    · cases hs; exact ⟨h1, h2⟩
+    · rename_i hg
+      cases hs
+      refine ⟨h1, ?_⟩
+      have hr : s.running = true := by
+        cases hr : s.running with
+        | true => rfl
+        | false => simp [hr] at hg
+      have hw : s.waiting = false := by
+        cases hw : s.waiting with
+        | false => rfl
+        | true => have := h1 hw; rw [hr] at this; cases this
+      simp [h2, hw]
+  · split at hs <;> cases hs; exact ⟨h1, h2⟩
+  · split at hs <;> cases hs; exact ⟨fun _ => rfl, h2⟩
+  · split at hs <;> cases hs; exact ⟨(fun hw => by cases hw), h2⟩
+  · split at hs
+    · rename_i hg
+      cases hs
+      refine ⟨?_, h2⟩
+      intro hw
+      have : s.waiting = false := by simpa using hg.2
+      rw [this] at hw; cases hw
+    · cases hs
+
+/-- **The repaired protocol never misuses the wait group**: for every sequence of Sends entering and
+    leaving, Stops and Runs, no `Add` from zero happens while a `Wait` is in progress — the panic
+    `WaitGroup is reused before previous Wait has returned` cannot occur. -/
+theorem C16_waitgroup_never_misused (acts : List PoolWg.Act) : (PoolWg.run true {} acts).misuse = false := by
+  have : ∀ (s : PoolWg.St), WgInv s → WgInv (PoolWg.run true s acts) := by
+    induction acts with
+    | nil => intro s h; exact h
+    | cons a as ih =>
+      intro s h
+      simp only [PoolWg.run]
+      cases hs : PoolWg.step true s a with
+      | none => exact ih s h
+      | some s' => exact ih s' (wg_step s s' a h hs)
+  exact (this {} ⟨(fun h => by cases h), rfl⟩).2
+
+/-- the pin: a Send that registers itself while Stop waits on an empty group — Go panics -/
+theorem C16_waitgroup_pin_witness : (PoolWg.run false {} [.stopCancel, .sendEnter]).misuse = true := by decide
 
 end FsDb.C16
